@@ -213,6 +213,7 @@ def run(ctx, replay=None):
     t_tie = time.time() - t2
     # ---- 5. decision ----
     stats = collections.Counter()
+    spec_kinds = {}
     tie_breaks = []
     cands = []
     kinds = collections.Counter()
@@ -249,6 +250,8 @@ def run(ctx, replay=None):
         stats['syntactic'] += 1 if r['syntactic'] else 0
         stats['unknown'] += r['unknown']
         stats['spec_checked'] += r.get('n_spec', 0)
+        for kk_, nn_ in r.get('spec_kinds', {}).items():
+            spec_kinds[kk_] = spec_kinds.get(kk_, 0) + nn_
         fb = [b for b in r['fwd_bad'] if b['tag'].split(':')[0] in cfg['fwd_tags']]
         if fb:
             tie_breaks.append((i, 'impl=>model', fb[0]))
@@ -359,7 +362,7 @@ def run(ctx, replay=None):
         'tie': {k: v for k, v in stats.items()},
         'tie_direction_decisive': {'impl=>model on tags': cfg['fwd_tags'], 'model=>impl': cfg['bwd'], 'accept/reject (O1)': cfg['o1']},
         'kernel_route_crosscheck': {'programs': len(slice_idx), 'mismatches': len(kernel_mismatch)},
-        'spec_clauses_swept': stats['spec_checked'], 'spec_candidates': len(cands), 'known_finding_hits': dict(known_hits),
+        'spec_clauses_swept': stats['spec_checked'], 'spec_clauses_swept_by_kind': dict(sorted(spec_kinds.items())), 'spec_candidates': len(cands), 'known_finding_hits': dict(known_hits),
         'generator_distribution': {'per_profile': per_profile, 'ops': dict(kinds.most_common()), 'program_length_buckets': dict(sizes),
                                    'impl_error_kinds': dict(errkinds)},
         'timing_s': {'model': round(t_model, 1), 'tie': round(t_tie, 1)},
